@@ -122,6 +122,18 @@ CLAIMS = {
              "TryFrom / Display / Pattern routes reach new / parse_and_check.",
         note=ASSUME + "Not decided: equality of behaviour as such.",
         ref="4 C19"),
+    "C05": dict(
+        technique="static analysis: MIR inventory of all panic-capable constructs vs. an audited table (one reason per site) + machine-checked local guards (THIR evaluation on shape grids) + exact monomorphic call-graph SCCs",
+        text="Every panic-capable construct of wax's own code (explicit panics, unwrap/expect, indexing, range methods, "
+             "unchecked constructors, overloaded arithmetic, inserted overflow/bounds asserts) in every feature configuration "
+             "must be in an audited table with a reason (discharged / finding / out of scope); a new or additional site is a "
+             "violation with a call path from a public entry point. Local discharging arguments are machine-checked by "
+             "evaluating the function on a grid of shapes and small magnitudes (this is how the unreachable!() in range "
+             "conjunction was found); error mapping of encode::compile; only nom complete combinators; recursion cycles of the "
+             "exact instance call graph.",
+        note=ASSUME + "Audited, not proven: non-local discharging arguments. Panics inside dependencies assumed away. Known "
+             "findings: overflow expects near the word size, panic on non-size regex errors, unbounded recursion depth.",
+        ref="4 C05"),
 }
 
 NA_DEFAULT = "check not built yet (work in progress; see DESIGN.md section 4 for the planned rules)"
